@@ -16,7 +16,7 @@ LEVEL = 'model_checking'
 TECHNIQUE = ('breadth-first token-soup / damage-edit enumeration x parse modes x source tags on the real PLSSDesc; per-tract '
              'invariant oracle (standard or error-placeholder TRS, attribute decomposition, orig_desc / source / orig_index)')
 LEVEL_TEXT = ('Every tract of every description in the C03 space (token soup depth 3/4 over 29 tokens, all damage edits of 16 seeds, '
-              '80 special strings, x parse-mode deviations, x source in {None, str with comma, int}) is checked against an '
+              '80 special strings, x parse-mode deviations, x source in {None, str with comma, int, 0, empty str}) is checked against an '
               'independently written decomposition of its Twp/Rge/Sec string and against the parent object. The invariant is '
               'evaluated on every reachable result, including error, fallback and multi-section tracts.')
 LEVEL_NOTE = ('Trusted: the anchored decomposition regex in mc/props/c09.py. Inputs that need more than 4 vocabulary tokens to '
@@ -31,7 +31,7 @@ ASSUMPTIONS = [
 ]
 
 STD = re.compile(r'(?P<twp>(?P<twp_num>[0-9]{1,3})(?P<ns>[ns])|XXXz)(?P<rge>(?P<rge_num>[0-9]{1,3})(?P<ew>[ew])|XXXz)(?P<sec>[0-9]{2}|XX)')
-SOURCES = [None, 'doc,1', 7]
+SOURCES = [None, 'doc,1', 7, 0, '']      # incl. falsy but meaningful tags (row 0, empty string)
 _p = None
 
 
@@ -46,7 +46,7 @@ def units(tier):
 
 
 def space(tier):
-    return {'bound': soup.space_text(tier) + '; source tag rotates over 3 values by text', 'caps_hit': []}
+    return {'bound': soup.space_text(tier) + '; source tag rotates over 5 values by text', 'caps_hit': []}
 
 
 def check_tract(t, i, text, src):
@@ -78,7 +78,7 @@ def check_tract(t, i, text, src):
 
 
 def judge(acc, text, mode):
-    src = SOURCES[zlib.crc32(text.encode()) % 3]
+    src = SOURCES[zlib.crc32(text.encode()) % len(SOURCES)]
     key = f"{mode[0]}|{text}"
     case = {'text': text, 'mode': mode[0], 'source': src}
     try:
